@@ -118,12 +118,17 @@ class Sym:
             return Sym(z3.simplify(fn(a.t, b.t)))
         return Sym(z3.simplify(fn(a.real(), b.real())))
 
-    def __add__(self, o): return self._bin(o, lambda a, b: a + b)
-    def __radd__(self, o): return self._bin(o, lambda a, b: a + b, swap=True)
-    def __sub__(self, o): return self._bin(o, lambda a, b: a - b)
-    def __rsub__(self, o): return self._bin(o, lambda a, b: a - b, swap=True)
-    def __mul__(self, o): return self._bin(o, lambda a, b: a * b)
-    def __rmul__(self, o): return self._bin(o, lambda a, b: a * b, swap=True)
+    def _cplx(self, o, op):
+        from .symc import SymC
+        a, b = SymC(self, 0), SymC(float(o.real), float(o.imag))
+        return {"add": a + b, "sub": a - b, "rsub": b - a, "mul": a * b}[op]
+
+    def __add__(self, o): return self._cplx(o, "add") if isinstance(o, complex) else self._bin(o, lambda a, b: a + b)
+    def __radd__(self, o): return self._cplx(o, "add") if isinstance(o, complex) else self._bin(o, lambda a, b: a + b, swap=True)
+    def __sub__(self, o): return self._cplx(o, "sub") if isinstance(o, complex) else self._bin(o, lambda a, b: a - b)
+    def __rsub__(self, o): return self._cplx(o, "rsub") if isinstance(o, complex) else self._bin(o, lambda a, b: a - b, swap=True)
+    def __mul__(self, o): return self._cplx(o, "mul") if isinstance(o, complex) else self._bin(o, lambda a, b: a * b)
+    def __rmul__(self, o): return self._cplx(o, "mul") if isinstance(o, complex) else self._bin(o, lambda a, b: a * b, swap=True)
 
     def __truediv__(self, o):
         if isinstance(o, _np.ndarray):
@@ -974,6 +979,20 @@ class SymNumpy:
             return _np.fmod(x, y)
         # C fmod: sign of dividend; callers use it on positive values (x + 7.0)
         return _map(lambda v: (v - y * Sym(z3.ToReal(z3.ToInt((v / y).real()))) if isinstance(v, Sym) else math.fmod(v, y)), x)
+
+    def real(self, x):
+        if hasattr(x, "re") and hasattr(x, "im"):
+            return x.re
+        if has_sym(x):
+            return _map(lambda v: v.re if hasattr(v, "re") else v, _np.asarray(x, dtype=object))
+        return _np.real(x)
+
+    def imag(self, x):
+        if hasattr(x, "re") and hasattr(x, "im"):
+            return x.im
+        if has_sym(x):
+            return _map(lambda v: v.im if hasattr(v, "im") else 0, _np.asarray(x, dtype=object))
+        return _np.imag(x)
 
     def mean(self, x, axis=None, dtype=None, **k):
         if not has_sym(x):
